@@ -19,6 +19,7 @@ type GenOpts struct {
 	NoExcRel    bool
 	Detach      float64 // probability of a handler that detaches a binding
 	Subs        float64 // probability that a case uses subscriptions
+	QueueSubs   bool    // bias subscriptions towards WhenQueue / WhenQueueEnds
 	Dispose     float64 // probability that the case ends with a dispose + probes
 	FinalFaults float64 // share of faults placed in State/End handlers
 	WideOps     float64 // share of ops calling 3..4 states
@@ -310,6 +311,12 @@ func genSub(r *rand.Rand, s *Schema, ctxs []int, qtickHint int) string {
 		}
 		return p[:k]
 	}
+	if subBiasQueue && r.Intn(10) < 7 {
+		if r.Intn(6) == 0 {
+			return "whenqueueends"
+		}
+		return fmt.Sprintf("whenqueue:%d", qtickHint+r.Intn(4))
+	}
 	switch r.Intn(11) {
 	case 0, 1:
 		return fmt.Sprintf("when:%s:%s", showList(distinct(1+r.Intn(2))), ctx)
@@ -338,7 +345,11 @@ func genSub(r *rand.Rand, s *Schema, ctxs []int, qtickHint int) string {
 	return fmt.Sprintf("statectx:%d", r.Intn(n))
 }
 
+// generation is single-threaded
+var subBiasQueue bool
+
 func GenCase(r *rand.Rand, o GenOpts) Case {
+	subBiasQueue = o.QueueSubs
 	motif := "random"
 	if len(o.Motifs) > 0 {
 		motif = o.Motifs[r.Intn(len(o.Motifs))]
